@@ -78,11 +78,16 @@ impl JN {
         let s2 = sink.clone();
         // other joins sharing a stream with the one under test: registered before it / after it, kept or unregistered again
         let others = cfg["others"].as_str().unwrap_or("none");
-        if others != "none" {
+        if others != "none" && others != "rereg" {
             mgr.register_join("j2".to_string(), mk_node_named("L", "R2", w), Box::new(|_| {}));
         }
+        if others == "rereg" {
+            // the join id has been used before: registered (with another window) and unregistered again
+            mgr.register_join("j".to_string(), mk_node(w + 5), Box::new(|_| {}));
+            mgr.unregister_join("j");
+        }
         mgr.register_join("j".to_string(), mk_node(w), Box::new(move |j| s2.lock().unwrap().push(pair_ids(&j))));
-        if others != "none" {
+        if others != "none" && others != "rereg" {
             mgr.register_join("j3".to_string(), mk_node_named("L3", "R", w), Box::new(|_| {}));
             mgr.register_join("j4".to_string(), mk_node_named("R", "L", w), Box::new(|_| {}));
         }
